@@ -44,7 +44,7 @@ func c06stores(f *ssa.Function) []c06st {
 		if !ok {
 			return
 		}
-		out = append(out, c06st{st, core.FieldKey(fa), core.Resolve(fa.X)})
+		out = append(out, c06st{st, core.FieldKey(fa), core.Resolve(core.FieldOwner(fa))})
 	})
 	return out
 }
@@ -56,7 +56,7 @@ func c06isLoad(v ssa.Value, key string, base ssa.Value) bool {
 		return false
 	}
 	fa, ok := u.X.(*ssa.FieldAddr)
-	return ok && core.FieldKey(fa) == key && (base == nil || core.Resolve(fa.X) == base)
+	return ok && core.FieldKey(fa) == key && (base == nil || core.Resolve(core.FieldOwner(fa)) == base)
 }
 
 func runC06(c *core.Ctx) {
@@ -122,7 +122,7 @@ func runC06(c *core.Ctx) {
 					if st, isS := ins.(*ssa.Store); isS {
 						if fa, isFA := st.Addr.(*ssa.FieldAddr); isFA && core.IsNilConst(st.Val) {
 							key := core.FieldKey(fa)
-							if key == c06Q+"."+spec.other && core.Resolve(fa.X) == recv {
+							if key == c06Q+"."+spec.other && core.Resolve(core.FieldOwner(fa)) == recv {
 								// must be on the new-end == nil edge
 								for _, m := range core.EdgeCmps(b) {
 									if m.Op == token.EQL && core.IsNilConst(m.Y) && isNewEnd(m.X) {
@@ -130,7 +130,7 @@ func runC06(c *core.Ctx) {
 									}
 								}
 							}
-							if key == c06Node+"."+spec.back && isNewEnd(fa.X) {
+							if key == c06Node+"."+spec.back && isNewEnd(core.FieldOwner(fa)) {
 								done = true
 							}
 						}
@@ -390,7 +390,7 @@ func runC06(c *core.Ctx) {
 			if u, isU := v.(*ssa.UnOp); isU && u.Op == token.MUL {
 				if c06isLoad(u.X, c06Node+".Val", nil) {
 					fa := core.Resolve(u.X).(*ssa.UnOp).X.(*ssa.FieldAddr)
-					if c06isLoad(fa.X, c06Q+"."+spec.end, f.Params[0]) {
+					if c06isLoad(core.FieldOwner(fa), c06Q+"."+spec.end, f.Params[0]) {
 						okV = true
 					}
 				}
@@ -448,7 +448,7 @@ func runC06(c *core.Ctx) {
 					break
 				}
 				if st, isS := i2.(*ssa.Store); isS && core.IsNilConst(st.Val) {
-					if fa, isFA := st.Addr.(*ssa.FieldAddr); isFA && core.Resolve(fa.X) == node {
+					if fa, isFA := st.Addr.(*ssa.FieldAddr); isFA && core.Resolve(core.FieldOwner(fa)) == node {
 						cleared[core.FieldName(fa.X.Type(), fa.Field)] = true
 					}
 				}
@@ -615,7 +615,7 @@ func c06ownership(c *core.Ctx) {
 				case c06Q + ".first", c06Q + ".last":
 					return oLive
 				case c06Node + ".Next", c06Node + ".Prev":
-					return origin(fa.X, depth+1, seen)
+					return origin(core.FieldOwner(fa), depth+1, seen)
 				}
 			}
 		case *ssa.TypeAssert:
